@@ -267,3 +267,293 @@ Example positional_handle_nonvacuous :
   handle ex_decode ex_zero ex_fi (PArray [[55]]%N) f = ([], RInvalidParams) /\
   handle ex_decode ex_zero ex_fi (PObject [([120], [49]); ([122], [50])]%N) f = ([], RInvalidParams).
 Proof. vm_compute. repeat split. Qed.
+
+(* ------------------------------------------------------------------------- *)
+(** * C15/C16: calls of one handler value do not interfere                     *)
+
+(* `serve` (Handler.v) is `map (wrap fi)`: that its n-th answer is the answer to its
+   n-th request (serve_stateless, serve_permutation, serve_positional) holds of `map f`
+   for ANY f and says nothing about the code.  What the code does that makes calls
+   independent is this: the handler closure made by Wrap allocates, on EVERY call, a
+   fresh variable (`in := reflect.New(arg)`) and a fresh stub around it (wrapArg(in)),
+   decodes the params into it, and passes what it holds to the function; nothing a
+   call writes is reachable from another call.  The machine below makes the scratch
+   variable explicit and runs the calls' steps in an arbitrary interleaving.
+
+   One call = up to three steps: allocate the scratch cell; decode the params into it
+   (absent params: no decode at all); read the cell and call the function.  The cell
+   of call i lives at address `addr shared i` of a common store: i itself (per-call
+   allocation, the code as it is) or, for shared = true, the same address for every
+   call (what hoisting the allocation out of the closure - into the "pre-compiled"
+   part of Wrap - would do). *)
+Inductive pc := PcNew | PcAllocated | PcDecoded | PcDone (o : outcome).
+
+Section Scratch.
+  Variable decode : ty -> bool -> pvalue -> option value.
+  Variable zero : ty -> value.
+  Variable fi : finfo.
+
+  (* the argument type when the params are decoded into a scratch variable *)
+  Definition scratch_type : option ty :=
+    if fi_handler fi then None
+    else match fi_arg fi with
+         | Some a => if is_req a then None else Some a
+         | None => None
+         end.
+
+  (* one step of one call, on its program counter and the contents of its cell *)
+  Definition local_step (p : pvalue) (s : pc * option value) : pc * option value :=
+    let '(c, cell) := s in
+    match c with
+    | PcDone _ => s
+    | _ =>
+        match scratch_type with
+        | None => (PcDone (wrap decode zero fi p), cell)
+        | Some a =>
+            match c with
+            | PcNew => (PcAllocated, Some (zero (pointee a)))
+            | PcAllocated =>
+                match p with
+                | PAbsent => (PcDecoded, cell)
+                | _ =>
+                    match stub_decode decode (arg_wrapper true fi) (fi_pos_names fi)
+                                      (direct_strict a) (pointee a) p with
+                    | Some v => (PcDecoded, Some v)
+                    | None => (PcDone OInvalidParams, cell)
+                    end
+                end
+            | PcDecoded =>
+                match cell with
+                | Some v => (PcDone (OCall (call_args fi v)), cell)
+                | None => s
+                end
+            | PcDone _ => s
+            end
+        end
+    end.
+
+  Record mstate := { m_cells : list (option value); m_pcs : list pc }.
+
+  Definition addr (shared : bool) (i : nat) : nat := if shared then 0 else i.
+
+  (* call i takes its next step *)
+  Definition mstep (shared : bool) (ps : list pvalue) (st : mstate) (i : nat) : mstate :=
+    match nth_error ps i, nth_error (m_pcs st) i with
+    | Some p, Some c =>
+        let k := addr shared i in
+        let s' := local_step p (c, nth k (m_cells st) None) in
+        {| m_cells := set_nth k (snd s') (m_cells st); m_pcs := set_nth i (fst s') (m_pcs st) |}
+    | _, _ => st
+    end.
+
+  Definition minit (n : nat) : mstate := {| m_cells := repeat None n; m_pcs := repeat PcNew n |}.
+  (* the calls for the requests ps, their steps taken in the order sch *)
+  Definition mrun (shared : bool) (ps : list pvalue) (sch : list nat) : mstate :=
+    fold_left (mstep shared ps) sch (minit (length ps)).
+  Definition outcome_of (c : pc) : option outcome := match c with PcDone o => Some o | _ => None end.
+
+  (* ---- one call alone ---- *)
+  Definition local (p : pvalue) (k : nat) : pc * option value := Nat.iter k (local_step p) (PcNew, None).
+
+  Lemma local_S p k : local p (S k) = local_step p (local p k).
+  Proof. reflexivity. Qed.
+
+  Lemma wrap_scratch a p :
+    scratch_type = Some a ->
+    wrap decode zero fi p =
+    match unmarshal_params decode zero (arg_wrapper true fi) (fi_pos_names fi) (direct_strict a) (pointee a) p with
+    | None => OInvalidParams
+    | Some v => OCall (call_args fi v)
+    end.
+  Proof.
+    unfold scratch_type, wrap, wrap_gen, call_args.
+    destruct (fi_handler fi); [discriminate|].
+    destruct (fi_arg fi) as [a'|]; [|discriminate].
+    destruct (is_req a') eqn:Er; [discriminate|]. intros [= ->]. reflexivity.
+  Qed.
+
+  Lemma local_3 p : fst (local p 3) = PcDone (wrap decode zero fi p).
+  Proof.
+    change (local p 3) with (local_step p (local_step p (local_step p (PcNew, None)))).
+    destruct scratch_type as [a|] eqn:Es.
+    - rewrite (wrap_scratch a p Es). unfold unmarshal_params, local_step. rewrite Es.
+      cbv beta iota zeta.
+      destruct p; cbv beta iota zeta; try reflexivity;
+        (destruct (stub_decode decode _ _ _ _ _) as [v|]; cbv beta iota zeta; reflexivity).
+    - unfold local_step. rewrite Es. reflexivity.
+  Qed.
+
+  Lemma local_done_stable p k o : fst (local p k) = PcDone o -> local p (S k) = local p k.
+  Proof.
+    intros H. rewrite local_S. destruct (local p k) as [c cell]. cbn in H. subst c. reflexivity.
+  Qed.
+
+  Lemma local_ge_3 p k : 3 <= k -> fst (local p k) = PcDone (wrap decode zero fi p).
+  Proof.
+    intros H. replace k with ((k - 3) + 3) by lia. induction (k - 3) as [|n IH]; [apply local_3|].
+    cbn [Nat.add]. rewrite (local_done_stable p (n + 3) _ IH). exact IH.
+  Qed.
+
+  (* whenever a call has finished, it finished with the answer of wrap *)
+  Lemma local_done_stable_add p k o m : fst (local p k) = PcDone o -> local p (m + k) = local p k.
+  Proof.
+    intros H. induction m as [|m IH]; [reflexivity|].
+    cbn [Nat.add]. rewrite (local_done_stable p (m + k) o); [exact IH|]. rewrite IH. exact H.
+  Qed.
+
+  Lemma local_done p k o : fst (local p k) = PcDone o -> o = wrap decode zero fi p.
+  Proof.
+    intros H. pose proof (local_ge_3 p (3 + k) ltac:(lia)) as H3.
+    rewrite (local_done_stable_add p k o 3 H), H in H3. congruence.
+  Qed.
+
+  (* ---- all calls, interleaved, each with its own cell ---- *)
+  Lemma nth_error_repeat_lt {A} (x : A) n i : i < n -> nth_error (repeat x n) i = Some x.
+  Proof. revert i; induction n as [|n IH]; intros [|i] H; cbn; try lia; auto. apply IH; lia. Qed.
+
+  Lemma nth_error_nth_default {A} (l : list A) i x d : nth_error l i = Some x -> nth i l d = x.
+  Proof. revert i; induction l as [|y l IH]; intros [|i] H; cbn in *; try discriminate; [congruence|auto]. Qed.
+
+  Definition inv (ps : list pvalue) (cnt : nat -> nat) (st : mstate) : Prop :=
+    length (m_pcs st) = length ps /\ length (m_cells st) = length ps /\
+    forall i p, nth_error ps i = Some p ->
+      nth_error (m_pcs st) i = Some (fst (local p (cnt i))) /\
+      nth_error (m_cells st) i = Some (snd (local p (cnt i))).
+
+  Lemma inv_ext ps cnt cnt' st : (forall j, cnt j = cnt' j) -> inv ps cnt st -> inv ps cnt' st.
+  Proof.
+    intros He (H1 & H2 & H3). split; [exact H1|]. split; [exact H2|].
+    intros i p Hp. rewrite <- He. apply H3; exact Hp.
+  Qed.
+
+  Lemma inv_init ps : inv ps (fun _ => 0) (minit (length ps)).
+  Proof.
+    unfold minit. split; [apply repeat_length|]. split; [apply repeat_length|].
+    intros i p Hp. assert (Hi : i < length ps) by (apply nth_error_Some; congruence).
+    cbn. split; apply nth_error_repeat_lt; exact Hi.
+  Qed.
+
+  Lemma inv_step ps cnt st i :
+    inv ps cnt st -> inv ps (fun j => if Nat.eqb j i then S (cnt j) else cnt j) (mstep false ps st i).
+  Proof.
+    intros (H1 & H2 & H3). unfold inv, mstep.
+    destruct (nth_error ps i) as [p|] eqn:Ep.
+    - destruct (H3 i p Ep) as [Hc Hcell]. rewrite Hc. cbn [addr].
+      rewrite (nth_error_nth_default _ _ _ None Hcell).
+      assert (Hi : i < length ps) by (apply nth_error_Some; congruence).
+      assert (Es : local_step p (fst (local p (cnt i)), snd (local p (cnt i))) = local p (S (cnt i))).
+      { rewrite local_S. destruct (local p (cnt i)); reflexivity. }
+      rewrite Es. cbn [m_cells m_pcs].
+      split; [rewrite set_nth_length; exact H1|]. split; [rewrite set_nth_length; exact H2|].
+      intros j q Hq. destruct (Nat.eqb_spec j i) as [->|Hne].
+      + assert (q = p) by congruence. subst q.
+        split; apply nth_error_set_nth_same; lia.
+      + rewrite !nth_error_set_nth_other by congruence. apply H3; exact Hq.
+    - split; [exact H1|]. split; [exact H2|].
+      intros j q Hq. destruct (Nat.eqb_spec j i) as [->|Hne]; [congruence|]. apply H3; exact Hq.
+  Qed.
+
+  Lemma inv_fold ps sch : forall st cnt,
+    inv ps cnt st -> inv ps (fun j => cnt j + count_occ Nat.eq_dec sch j) (fold_left (mstep false ps) sch st).
+  Proof.
+    induction sch as [|i sch IH]; intros st cnt H; cbn [fold_left].
+    - apply (inv_ext ps cnt); [intros j; cbn; lia|exact H].
+    - apply (inv_ext ps (fun j => (if Nat.eqb j i then S (cnt j) else cnt j) + count_occ Nat.eq_dec sch j)).
+      + intros j. cbn [count_occ]. destruct (Nat.eq_dec i j) as [->|Hne].
+        * rewrite Nat.eqb_refl. lia.
+        * destruct (Nat.eqb_spec j i); [congruence|reflexivity].
+      + apply IH, inv_step, H.
+  Qed.
+
+  (* Every call, whatever the other calls do and in whatever order all their steps are
+     taken, behaves as if it were alone: its program counter and its cell are those of
+     `local` after as many steps as the schedule gave it; if it has finished, it
+     finished with wrap's answer to ITS params; after three steps it has finished. *)
+  Lemma scratch_no_interference ps sch :
+    let st := mrun false ps sch in
+    length (m_pcs st) = length ps /\
+    forall i p, nth_error ps i = Some p ->
+      nth_error (m_pcs st) i = Some (fst (local p (count_occ Nat.eq_dec sch i))) /\
+      nth_error (m_cells st) i = Some (snd (local p (count_occ Nat.eq_dec sch i))) /\
+      (forall o, nth_error (m_pcs st) i = Some (PcDone o) -> o = wrap decode zero fi p) /\
+      (3 <= count_occ Nat.eq_dec sch i -> nth_error (m_pcs st) i = Some (PcDone (wrap decode zero fi p))).
+  Proof.
+    intros st. destruct (inv_fold ps sch _ _ (inv_init ps)) as (H1 & _ & H3). fold (mrun false ps sch) in H1, H3.
+    split; [exact H1|]. intros i p Hp. destruct (H3 i p Hp) as [Hc Hcell]. cbn [Nat.add] in Hc, Hcell.
+    split; [exact Hc|]. split; [exact Hcell|]. split.
+    - intros o Ho. fold st in Hc. rewrite Hc in Ho. injection Ho as Ho. apply (local_done p _ o Ho).
+    - intros Hk. fold st in Hc. rewrite Hc. f_equal. apply local_ge_3; exact Hk.
+  Qed.
+
+  (* a schedule that lets every call finish yields exactly `serve` *)
+  Lemma scratch_complete ps sch :
+    (forall i, i < length ps -> 3 <= count_occ Nat.eq_dec sch i) ->
+    map outcome_of (m_pcs (mrun false ps sch)) = map Some (serve decode zero fi ps).
+  Proof.
+    intros Hall. destruct (scratch_no_interference ps sch) as [Hl H].
+    apply nth_error_ext. intros i. rewrite !nth_error_map. unfold serve. rewrite nth_error_map.
+    destruct (nth_error ps i) as [p|] eqn:Ep.
+    - assert (Hi : i < length ps) by (apply nth_error_Some; congruence).
+      destruct (H i p Ep) as (_ & _ & _ & Hd). rewrite (Hd (Hall i Hi)). reflexivity.
+    - assert (Hi : length ps <= i) by (apply nth_error_None; exact Ep).
+      assert (En : nth_error (m_pcs (mrun false ps sch)) i = None) by (apply nth_error_None; lia).
+      rewrite En. reflexivity.
+  Qed.
+End Scratch.
+
+(* non-vacuity, and the refutation for a scratch variable shared between calls: two
+   requests {"a":1} and {"a":2}; the schedule lets call 0 allocate and decode, then call 1
+   allocate and decode, then both call their function *)
+Definition first_decode (_ : ty) (_ : bool) (p : pvalue) : option value :=
+  match p with PObject ((_, e) :: _) => Some (Val e []) | _ => None end.
+Definition scratch_reqs : list pvalue := [PObject [(bs [97], bs [49])]; PObject [(bs [97], bs [50])]].
+Definition scratch_sched : list nat := [0; 0; 1; 1; 0; 1].
+
+Example scratch_nonvacuous :
+  scratch_type (fi_of strict_fn) = Some (TPtr strict_struct) /\
+  (forall i, i < length scratch_reqs -> 3 <= count_occ Nat.eq_dec scratch_sched i) /\
+  map outcome_of (m_pcs (mrun first_decode demo_zero (fi_of strict_fn) false scratch_reqs scratch_sched)) =
+    [Some (OCall [Val (bs [49]) []]); Some (OCall [Val (bs [50]) []])] /\
+  (* a call that has taken two of its three steps, the other none *)
+  map outcome_of (m_pcs (mrun first_decode demo_zero (fi_of strict_fn) false scratch_reqs [1; 1])) = [None; None] /\
+  (* a rejected request between two accepted ones *)
+  map outcome_of (m_pcs (mrun first_decode demo_zero (fi_of strict_fn) false
+                           [PObject [(bs [97], bs [49])]; PArray []; PAbsent] [2; 0; 1; 1; 0; 2; 2; 0; 1])) =
+    [Some (OCall [Val (bs [49]) []]); Some OInvalidParams; Some (OCall [demo_zero TAny])].
+Proof.
+  split; [vm_compute; reflexivity|]. split.
+  - intros [|[|i]] H; cbn in H; try lia; vm_compute; lia.
+  - vm_compute. repeat split.
+Qed.
+
+Lemma scratch_refuted_with_shared_cell :
+  map outcome_of (m_pcs (mrun first_decode demo_zero (fi_of strict_fn) true scratch_reqs scratch_sched)) =
+    [Some (OCall [Val (bs [50]) []]); Some (OCall [Val (bs [50]) []])] /\
+  map outcome_of (m_pcs (mrun first_decode demo_zero (fi_of strict_fn) true scratch_reqs scratch_sched)) <>
+    map Some (serve first_decode demo_zero (fi_of strict_fn) scratch_reqs).
+Proof. split; [vm_compute; reflexivity|vm_compute; congruence]. Qed.
+
+(* the handler made by Positional decodes into a scratch variable of the synthetic
+   struct type - one per call - and the interleaving statement applies to it *)
+Lemma positional_no_interference decode zero xs outs names fi ps sch :
+  xs <> [] -> positional (FFunc (TCtx :: xs) false outs) names = Ok fi ->
+  scratch_type fi = Some (pos_struct names xs) /\
+  forall i p, nth_error ps i = Some p ->
+    (forall o, nth_error (m_pcs (mrun decode zero fi false ps sch)) i = Some (PcDone o) ->
+       o = wrap decode zero fi p) /\
+    (3 <= count_occ Nat.eq_dec sch i ->
+       nth_error (m_pcs (mrun decode zero fi false ps sch)) i = Some (PcDone (wrap decode zero fi p))).
+Proof.
+  intros Hx Hp. destruct (positional_info _ _ _ _ Hx Hp) as (_ & Ha & _ & _ & _ & _ & Hh & _).
+  split.
+  - unfold scratch_type. rewrite Hh, Ha. reflexivity.
+  - intros i p Hi. destruct (scratch_no_interference decode zero fi ps sch) as [_ H].
+    destruct (H i p Hi) as (_ & _ & H1 & H2). split; assumption.
+Qed.
+
+Example positional_no_interference_nonvacuous :
+  map outcome_of (m_pcs (mrun ex_decode ex_zero ex_fi false
+      [PArray [[55]; [34; 97; 34]]; PArray [[55]]; PObject [([89], [34; 98; 34])]]%N [2; 0; 1; 1; 0; 2; 2; 0; 1])) =
+  [Some (OCall [Val [55]%N []; Val [34; 97; 34]%N []]); Some OInvalidParams;
+   Some (OCall [Val [48]%N []; Val [34; 98; 34]%N []])].
+Proof. vm_compute. reflexivity. Qed.
